@@ -136,6 +136,9 @@ pub enum SOp {
     /// several spawns of one (context, name) appended back to back, before the serve loop has
     /// answered the first
     SpawnBurst { name: usize, ctx: usize, gens: Vec<GScript> },
+    /// a duplex spawn with a client that sends input the moment `<name>.start` is visible,
+    /// before the generator has taken its input subscription
+    SpawnRace { name: usize, ctx: usize, gen: GScript },
     Send { name: usize, ctx: usize, content: usize },
     Define { name: usize, ctx: usize, cmd: CScript },
     Call { name: usize, ctx: usize, arg: usize },
@@ -461,6 +464,9 @@ impl Run {
             pass.push("handler.subscribe");
             pass.push("handler.announce");
         }
+        if !plan.ops.iter().any(|o| matches!(o, SOp::SpawnRace { .. })) {
+            pass.push("gen.started");
+        }
         let mut w = World::new(tag, plan.seed ^ 0xe5, &[], &pass);
         let path = w.dir.join("s0");
         std::fs::create_dir_all(&path).map_err(|e| Stop::Harness(e.to_string()))?;
@@ -747,6 +753,36 @@ impl Run {
             SOp::SpawnGen { name, ctx, gen, duplex } => {
                 self.spawn_gen(i, *name, *ctx, gen, *duplex)?;
                 self.quiesce(chooser, vec![])?;
+            }
+            SOp::SpawnRace { name, ctx, gen } => {
+                self.spawn_gen(i, *name, *ctx, gen, true)?;
+                let sid = self.gens.last().map(|g| g.id.to_u128()).unwrap_or(0);
+                let c = self.ctx(*ctx);
+                let n = GNAMES[name % GNAMES.len()];
+                let mut raced = false;
+                let mut guard = 0u64;
+                loop {
+                    guard += 1;
+                    if guard > 200_000 {
+                        return harness("spawn race does not terminate");
+                    }
+                    self.drain_log();
+                    let at_start = !raced && self.w.ctrl.aparked().iter().any(|(_, s, d)| *s == "gen.started" && *d == sid);
+                    let extra: Vec<String> = if at_start { vec!["race-send".to_string()] } else { vec![] };
+                    match self.w.decide(chooser, &extra, &|e| e.actor_kind != "gc")? {
+                        Picked::Nothing => break,
+                        Picked::Extra(_) => {
+                            let text = format!("input-race-{}", i);
+                            let hash = self.cas(&text)?;
+                            let f = self.op_append(Frame::builder(format!("{}.send", n), c).hash(hash).build())?;
+                            self.sends.push((f.id, n.to_string(), c, text));
+                            raced = true;
+                            self.w.probe("gen:send-races-input-subscription");
+                        }
+                        Picked::Ran(_) => {}
+                    }
+                }
+                self.drain_log();
             }
             SOp::SpawnBurst { name, ctx, gens } => {
                 for (k, gen) in gens.iter().enumerate() {
@@ -2254,6 +2290,10 @@ pub fn generate(seed: u64, prop: &str, thorough: bool) -> Plan {
                 SOp::Define { name, ctx, cmd } if prop == "C19" && !cmd.invalid && cmd.fail_at.is_none() && rng.chance(10) => {
                     SOp::Define { name, ctx, cmd: CScript { explicit_append: true, panic_after_side: true, ..cmd } }
                 }
+                o => o,
+            };
+            let op = match op {
+                SOp::SpawnGen { name, ctx, gen, duplex: true } if prop == "C18" && rng.chance(35) => SOp::SpawnRace { name, ctx, gen },
                 o => o,
             };
             let op = match op {
